@@ -33,6 +33,8 @@ import (
 	"github.com/hyperledger/aries-framework-go/component/storageutil/mem"
 	"github.com/hyperledger/aries-framework-go/pkg/didcomm/protocol/messagepickup"
 	mockdispatcher "github.com/hyperledger/aries-framework-go/pkg/mock/didcomm/dispatcher"
+	"github.com/hyperledger/aries-framework-go/component/models/ld/testutil"
+	"github.com/hyperledger/aries-framework-go/pkg/crypto/tinkcrypto"
 	mockprovider "github.com/hyperledger/aries-framework-go/pkg/mock/provider"
 	"github.com/hyperledger/aries-framework-go/pkg/wallet"
 	kmsapi "github.com/hyperledger/aries-framework-go/spi/kms"
@@ -111,20 +113,61 @@ func c13KMSSpec(state, op string) (string, string) {
 	}
 }
 
-// one user: open succeeds iff closed, close succeeds (true) iff open
+// one user; state = number of the live token ("" = closed). open#n succeeds iff closed and makes token n live; close
+// succeeds (true) iff open; use#n tells whether token n is the live one.
 func c13SessionSpec(state, op string) (string, string) {
-	switch op {
-	case "open":
-		if state == "open" {
+	switch {
+	case strings.HasPrefix(op, "open#"):
+		if state != "" {
 			return state, "err"
 		}
-		return "open", "ok"
+		return op[5:], "ok"
+	case strings.HasPrefix(op, "use#"):
+		if state != "" && state == op[4:] {
+			return state, "live"
+		}
+		return state, "dead"
 	default:
-		if state == "open" {
+		if state != "" {
 			return "", "true"
 		}
 		return state, "false"
 	}
+}
+
+// wallet contents of one type: add id name (refused when the id is taken) | rm id | get id
+func c13WalletSpec(state, op string) (string, string) {
+	m := map[string]string{}
+	for _, kv := range strings.Split(state, ",") {
+		if kv != "" {
+			p := strings.SplitN(kv, "=", 2)
+			m[p[0]] = p[1]
+		}
+	}
+	f := strings.Split(op, " ")
+	res := "ok"
+	switch f[0] {
+	case "add":
+		if _, ok := m[f[1]]; ok {
+			res = "err"
+		} else {
+			m[f[1]] = f[2]
+		}
+	case "rm":
+		delete(m, f[1])
+	default:
+		if v, ok := m[f[1]]; ok {
+			res = v
+		} else {
+			res = "notfound"
+		}
+	}
+	var ks []string
+	for k, v := range m {
+		ks = append(ks, k+"="+v)
+	}
+	sort.Strings(ks)
+	return strings.Join(ks, ","), res
 }
 
 // FIFO inbox: add m | pick n -> the first n messages
@@ -358,19 +401,106 @@ func c13Target(name string) (c13Exec, c13Spec, func(r *Rng, g int) string, error
 		}
 		return exec, c13KMSSpec, gen, nil
 	case "session":
-		// the wallet's session manager (one process-wide instance): scan-then-insert under its mutex
+		// the wallet's session manager (one process-wide instance): scan-then-insert under its mutex, and the token check
+		// with its expiry refresh. Tokens are numbered in the order of their creation; the operation recorded for the
+		// history names the number it met ("open#3", "use#3": the exec returns "<recorded op>=><result>").
 		user := fmt.Sprintf("user-%d", time.Now().UnixNano())
+		var (
+			tokMu  sync.Mutex
+			tokens []string
+		)
 		exec := func(op string) string {
-			if op == "open" {
-				if _, err := wallet.VerifCreateSession(user); err != nil {
+			switch op {
+			case "open":
+				tok, err := wallet.VerifCreateSession(user)
+				if err != nil {
+					return "open#0=>err"
+				}
+				tokMu.Lock()
+				tokens = append(tokens, tok)
+				n := len(tokens)
+				tokMu.Unlock()
+				return fmt.Sprintf("open#%d=>ok", n)
+			case "use":
+				// the most recently issued token (it may have been closed since)
+				tokMu.Lock()
+				n := len(tokens)
+				tok := ""
+				if n > 0 {
+					tok = tokens[n-1]
+				}
+				tokMu.Unlock()
+				if n == 0 {
+					return "use#0=>dead"
+				}
+				if wallet.VerifSessionAlive(tok) {
+					return fmt.Sprintf("use#%d=>live", n)
+				}
+				return fmt.Sprintf("use#%d=>dead", n)
+			}
+			return strconv.FormatBool(wallet.VerifCloseSession(user))
+		}
+		gen := func(r *Rng, g int) string { return r.Pick([]string{"open", "open", "close", "use", "use"}) }
+		return exec, c13SessionSpec, gen, nil
+	case "wsave":
+		// one shared wallet instance: contents of one type; a second add under the same id is refused
+		loader, err := testutil.DocumentLoader()
+		if err != nil {
+			return nil, nil, nil, err
+		}
+		cr, err := tinkcrypto.New()
+		if err != nil {
+			return nil, nil, nil, err
+		}
+		ctx := &mockprovider.Provider{StorageProviderValue: keepProvider{mem.NewProvider()}, DocumentLoaderValue: loader, CryptoValue: cr}
+		user := fmt.Sprintf("c13-wsave-%d", time.Now().UnixNano())
+		if err := wallet.CreateProfile(user, ctx, wallet.WithPassphrase("p")); err != nil {
+			return nil, nil, nil, err
+		}
+		w, err := wallet.New(user, ctx)
+		if err != nil {
+			return nil, nil, nil, err
+		}
+		tok, err := w.Open(wallet.WithUnlockByPassphrase("p"))
+		if err != nil {
+			return nil, nil, nil, err
+		}
+		exec := func(op string) string {
+			f := strings.Split(op, " ")
+			switch f[0] {
+			case "add":
+				err := w.Add(tok, wallet.Metadata, []byte(fmt.Sprintf(`{"@context":["https://w3id.org/wallet/v1"],"id":"%s","type":"Metadata","name":"%s"}`, f[1], f[2])))
+				if err != nil {
+					return "err"
+				}
+				return "ok"
+			case "rm":
+				if err := w.Remove(tok, wallet.Metadata, f[1]); err != nil {
 					return "err"
 				}
 				return "ok"
 			}
-			return strconv.FormatBool(wallet.VerifCloseSession(user))
+			b, err := w.Get(tok, wallet.Metadata, f[1])
+			if err != nil {
+				return "notfound"
+			}
+			var m struct {
+				Name string `json:"name"`
+			}
+			_ = json.Unmarshal(b, &m)
+			return m.Name
 		}
-		gen := func(r *Rng, g int) string { return r.Pick([]string{"open", "open", "close"}) }
-		return exec, c13SessionSpec, gen, nil
+		gen := func(r *Rng, g int) string {
+			id := r.Pick([]string{"urn:a", "urn:a", "urn:b"})
+			switch r.N(5) {
+			case 0, 1:
+				return fmt.Sprintf("add %s n%d%d", id, g, r.N(90))
+			case 2:
+				return "rm " + id
+			}
+			return "get " + id
+		}
+		return exec, c13WalletSpec, gen, nil
 	case "pickup":
 		// the batch handed to the outbound dispatcher carries the id of the request (@id): results are keyed by it
 		var batches, failing sync.Map
@@ -539,6 +669,10 @@ func c13Run(input string) string {
 				inv := atomic.AddInt64(&clock, 1)
 				res := exec(op)
 				ret := atomic.AddInt64(&clock, 1)
+				if i := strings.Index(res, "=>"); i >= 0 {
+					// the exec names what it met (e.g. the number of the token): that is the recorded operation
+					op, res = res[:i], res[i+2:]
+				}
 				events[g] = append(events[g], c13Event{g, op, inv, ret, res})
 			}
 		}(g)
@@ -580,7 +714,7 @@ func c13Gen(r *Rng, tier string) []string {
 	if tier == "thorough" {
 		n = 30000
 	}
-	targets := []string{"mem", "cached", "batched", "formatted", "kms", "session", "pickup"}
+	targets := []string{"mem", "cached", "batched", "formatted", "kms", "session", "pickup", "wsave"}
 	var out []string
 	for i := 0; i < n; i++ {
 		g := 2 + r.N(7)
